@@ -343,7 +343,8 @@ class ProductStack:
         reload the stack data from a cached file if it seems out of sync
         @param flavors         if not None, restrict reloading to the given
                                  flavors; other flavor data will remain
-                                 unchanged.
+                                 unchanged.  If None, the flavors this stack
+                                 holds are reloaded.
         @param persistDir      the directory to find cached product data.
                                  If None, the directory set at construction
                                  time will be used.
@@ -352,6 +353,11 @@ class ProductStack:
         if not self.cacheIsInSync(flavors):
             if verbose > 0:
                 print("Note: cache appears out-of-sync; updating...", file=sys.stderr)
+            if flavors is None:
+                # read again what this stack holds, and nothing else: the cache files of these flavors
+                # were checked against the database when they were loaded; the directory may hold
+                # files for other flavors, which nobody has checked and which may be out of date
+                flavors = self.getFlavors()
             self.reload(flavors, persistDir)
 
     def addFlavor(self, flavor):
